@@ -71,14 +71,16 @@ def pin():
     return PINS
 
 
-def diff():
-    """-> list of human-readable differences between the pinned and the current state"""
+def diff(only=None):
+    """-> list of human-readable differences between the pinned and the current state (only: set of "T in file" keys)"""
     if not os.path.exists(PINS):
         return ['units/derive_pins.json is missing']
     pins = json.load(open(PINS))
     cur = state()
     out = []
     for k in sorted(set(pins) | set(cur)):
+        if only is not None and k not in only:
+            continue
         a, b = pins.get(k), cur.get(k)
         if a != b:
             out.append('%s: pinned %s, now %s' % (k, json.dumps(a), json.dumps(b)))
